@@ -2,6 +2,8 @@
 discharge obligations with z3, replay counterexamples natively, write evidence."""
 import json, os, re, shutil, subprocess, sys, time, glob, hashlib, traceback
 import multiprocessing as mp
+import gc
+gc.disable()
 import z3
 
 HERE = os.path.dirname(os.path.abspath(__file__))
